@@ -39,7 +39,11 @@ Classes of inputs added after the audit of the seeded-change rounds (each one a 
   the number of retained samples — even and odd — and all five window functions), on float series of 3 - 256 samples (uniform /
   non-uniform), several requests per object, directly and through positional / TsDB.geta / getda / to_dataframe / modify: time and
   data have equal length, the stages leave the time array alone, the stages asked together give what the later stages give on a
-  series holding the result of the earlier ones (order), the entry points agree, the stored arrays are untouched.
+  series holding the result of the earlier ones (order), the entry points agree, the stored arrays are untouched;
+* several series in one request (stream `containers`) — the entry points that take a container of series and one window
+  (qats.app.funcs.calculate_trace / calculate_gumbel_fit, TsDB.getda with a list of names) with 2 - 4 series covering different time
+  spans, named in any order, several requests per container, windows reaching beyond some of the series only: the window clause holds
+  for every series of the request, and a series named together with others gets what it gets alone.
 """
 from datetime import datetime, timedelta
 from fractions import Fraction
@@ -81,7 +85,12 @@ RULE = ("seeded dyadic series (3-40 samples; uniform with power-of-two steps, or
         "with the unpatched stage functions (taper fraction 0..1, lp / hp / bp / bs / tp, smoothing window lengths 0..number of "
         "retained samples both even and odd, five window functions, after window / step / array resampling, via get / positional / "
         "geta / getda / to_dataframe / modify): equal length of time and data, time array untouched by the stages, "
-        "stages together = later stages on a series holding the earlier ones' result")
+        "stages together = later stages on a series holding the earlier ones' result; stream containers: 2-4 float series covering "
+        "different time spans (disjoint / overlapping / nested / identical, different steps) named together in any order in 1-3 "
+        "requests with one window (far wider than all, hull, beyond the start / end of some only, limits = first / last times, inside "
+        "the intersection) with / without filter through app.funcs.calculate_trace / calculate_gumbel_fit / TsDB.getda(names=[..]): "
+        "every series gets exactly its stored samples inside the closed window (with a filter: what the series alone gives), the "
+        "peaks / troughs reported with the trace lie in the window and are those of the series alone")
 
 
 class Tags:
@@ -1562,6 +1571,180 @@ def real_clauses(inp):
         bad.append(("without options the stored arrays are returned" + AFTER, [t.tolist()[:5], x.tolist()[:5]], head(got), len(inp["requests"]) - 1))
     return bad
 
+# ---- requests for several series at once (containers) ----------------------------------------------------------------------------------------
+CONTAINER_VIAS = ("trace", "trace", "trace", "getda", "gumbel")
+EACH = " — for every series of a request that names several series (whatever the other series' time spans and the order they are listed in)"
+
+
+def gen_container(rng):
+    """2 - 4 float series that cover different time spans (disjoint / overlapping / nested / identical; different steps; uniform or
+    not) and 1 - 3 requests to the same container, each naming the series in some order with one time window for all of them: far
+    wider than every series, the hull of all spans, reaching beyond the start / end of some of the series only, limits that are the
+    first / last time of one of the series, inside the intersection, outside one series altogether; with or without a filter;
+    through qats.app.funcs.calculate_trace / calculate_gumbel_fit and TsDB.getda(names=[...])"""
+    k = rng.choice([2, 2, 3, 4])
+    series = []
+    for i in range(k):
+        if series and rng.random() < 0.15:
+            t = list(series[-1]["t"])                        # the same time axis as the previous one
+        else:
+            n = rng.choice([5, 12, 41, 60, 101, 120])
+            dt0 = rng.choice([0.1, 0.25, 0.5, 1.0])
+            start = rng.choice([0.0, 0.0, 10.0, 20.0, -5.0, 100.5, 33.25])
+            if rng.random() < 0.8:
+                t = [start + dt0 * j for j in range(n)]
+            else:
+                t = [start]
+                for _ in range(n - 1):
+                    t.append(t[-1] + dt0 * rng.choice([0.5, 1.0, 1.0, 1.5, 2.0]))
+        mean = rng.choice([0.0, 2.0, -50.0])
+        per = rng.choice([3.0, 7.0, 20.0])
+        x = [mean + float(np.sin(2 * np.pi * u / per)) + 0.3 * rng.gauss(0.0, 1.0) for u in t]
+        series.append({"name": "s%d" % i, "t": t, "x": x})
+    starts, ends = [s["t"][0] for s in series], [s["t"][-1] for s in series]
+    lo, hi = min(starts), max(ends)
+    ilo, ihi = max(starts), min(ends)                        # the intersection of the spans (empty if ilo > ihi)
+    reqs = []
+    for _ in range(rng.choice([1, 1, 2, 3])):
+        names = [s["name"] for s in series]
+        rng.shuffle(names)
+        if rng.random() < 0.2 and len(names) > 2:
+            names = names[:-1]
+        kind = rng.choice(["wide", "wide", "huge", "hull", "beyond-one", "beyond-one", "ends", "inside", "mid", "left-open"])
+        one = rng.choice(series)["t"]
+        if kind == "wide":
+            a, b = -1.0e6, 1.0e6
+        elif kind == "huge":
+            a, b = -1.0e30, 1.0e30
+        elif kind == "hull":
+            a, b = lo, hi
+        elif kind == "beyond-one":
+            a, b = one[rng.randrange(0, len(one) // 2)], one[-1] + rng.choice([0.05, 1.0, 50.0, 1.0e4])
+        elif kind == "left-open":
+            a, b = one[0] - rng.choice([0.05, 1.0, 50.0, 1.0e4]), one[rng.randrange(len(one) // 2, len(one))]
+        elif kind == "ends":
+            a, b = sorted([rng.choice(starts + ends), rng.choice(starts + ends)])
+        elif kind == "inside" and ilo < ihi:
+            a = ilo + (ihi - ilo) * rng.choice([0.0, 0.1, 0.3])
+            b = ihi - (ihi - ilo) * rng.choice([0.0, 0.1, 0.3])
+        else:
+            a = lo + (hi - lo) * rng.choice([0.1, 0.25, 0.4])
+            b = hi - (hi - lo) * rng.choice([0.1, 0.25, 0.4])
+        r = {"via": rng.choice(CONTAINER_VIAS), "names": names, "twin": [float(a), float(b)], "window": kind}
+        if rng.random() < 0.3:
+            r["twin_spell"] = "list"
+        if rng.random() < 0.3 and r["via"] != "gumbel":
+            steps = [(s["t"][-1] - s["t"][0]) / (len(s["t"]) - 1) for s in series]
+            nyq = 0.5 / max(steps)
+            r["fargs"] = rng.choice([["lp", 0.3 * nyq], ["hp", 0.2 * nyq], ["bp", 0.1 * nyq, 0.6 * nyq], ["tp", [-1.0, 1.5]]])
+        reqs.append(r)
+    return {"container": 1, "series": series, "requests": reqs}
+
+
+def container_call(objs, r):
+    """one request for several series through a multi-series entry point: {name: dict(t, x[, tmin, xmin, tmax, xmax])}"""
+    from collections import OrderedDict
+    a, b = r["twin"]
+    twin = [a, b] if r.get("twin_spell") == "list" else (a, b)
+    fargs = None if r.get("fargs") is None else tuple(r["fargs"])
+    via = r.get("via", "trace")
+    if via == "getda":
+        from qats import TsDB
+        db = TsDB()
+        for name in sorted(objs):
+            db.add(objs[name])
+        got = db.getda(names=list(r["names"]), twin=twin, filterargs=fargs)
+        return {name: dict(t=v[0], x=v[1]) for name, v in got.items()}
+    from qats.app import funcs
+    container = OrderedDict((name, objs[name]) for name in r["names"])
+    if r.get("plain_dict"):
+        container = dict(container)
+    if via == "gumbel":
+        return funcs.calculate_gumbel_fit(container, twin, fargs)
+    return funcs.calculate_trace(container, twin, fargs)
+
+
+def container_clauses(inp):
+    """A request naming several series with one time window is that request for each of them: every series comes back with exactly
+    its stored samples inside the closed window (unchanged, in order); with a filter, with what the series alone gives for the same
+    window and filter; the peaks / troughs reported with the trace lie inside the window and are those of the series alone.
+    Returns [(oracle, expected, observed, index of the request)]."""
+    from qats import TimeSeries
+    data = {s["name"]: (np.array(s["t"], dtype=float), np.array(s["x"], dtype=float)) for s in inp["series"]}
+    objs = {name: TimeSeries(name, t.copy(), x.copy()) for name, (t, x) in data.items()}
+    bad = []
+    for idx, r in enumerate(inp["requests"]):
+        a, b = r["twin"]
+        fargs = None if r.get("fargs") is None else tuple(r["fargs"])
+        via = r.get("via", "trace")
+        label = " (through %s)" % {"trace": "app.funcs.calculate_trace", "getda": "TsDB.getda", "gumbel": "app.funcs.calculate_gumbel_fit"}[via]
+        # each series alone, on an object of its own
+        alone = {}
+        for name in r["names"]:
+            t, x = data[name]
+            alone[name] = attempt(lambda: TimeSeries(name, t.copy(), x.copy()).get(twin=(a, b), filterargs=fargs))
+        got = attempt(lambda: container_call(objs, r))
+        if via == "gumbel":
+            keeps = [data[name][1][(data[name][0] >= a) & (data[name][0] <= b)] for name in r["names"]]
+            if any(len(k) == 0 for k in keeps) or len(keeps) < 2:
+                continue                                     # an extreme of no samples: nothing to compare
+            exp = sorted(float(np.max(k)) for k in keeps)
+            if isinstance(got, str) or not np.array_equal(np.asarray(got["sample"], dtype=float), np.array(exp)):
+                bad.append(("with a time window exactly the samples in the closed window are returned: the largest value of each "
+                            "series is the largest of its stored samples inside the window" + EACH + label,
+                            exp, got if isinstance(got, str) else np.asarray(got["sample"], dtype=float).tolist(), idx))
+            continue
+        if isinstance(got, str):
+            if not any(isinstance(v, str) for v in alone.values()):
+                bad.append(("a request for several series returns a result when the request for each series alone does" + label,
+                            {n: head(v) for n, v in alone.items()}, got, idx))
+            continue
+        for name in r["names"]:
+            t, x = data[name]
+            one = alone[name]
+            if name not in got:
+                bad.append(("every requested series is returned" + label, name, sorted(got), idx))
+                continue
+            g = (got[name]["t"], got[name]["x"])
+            ln = lengths(g)
+            if ln is None or ln[0] != ln[1]:
+                bad.append(("time and data always have equal length" + EACH + label, "as many data samples as time samples",
+                            "unreadable" if ln is None else [name, list(ln)], idx))
+                continue
+            gt, gx = np.asarray(g[0], dtype=float), np.asarray(g[1], dtype=float)
+            keep = (t >= a) & (t <= b)
+            if fargs is None:
+                if not (np.array_equal(gt, t[keep]) and np.array_equal(gx, x[keep])):
+                    bad.append(("with a time window, exactly the samples whose time lies in the closed window are returned, unchanged "
+                                "and in order" + EACH + label,
+                                [name, int(keep.sum()), head((t[keep], x[keep]))], [name, len(gt), head(g)], idx))
+                    continue
+            elif isinstance(one, str) or lengths(one) != ln or not np.array_equal(np.asarray(one[0], dtype=float), gt) or \
+                    not np.allclose(np.asarray(one[1], dtype=float), gx, rtol=1e-12, atol=1e-12 * xscale(x)):
+                bad.append(("window and filter give for a series named together with others what they give for the series alone"
+                            + EACH + label, [name, head(one)], [name, len(gt), head(g)], idx))
+                continue
+            if via != "trace":
+                continue
+            for what in ("minima", "maxima"):
+                tk, xk = ("tmin", "xmin") if what == "minima" else ("tmax", "xmax")
+                pt, px = np.asarray(got[name][tk], dtype=float), np.asarray(got[name][xk], dtype=float)
+                ref = attempt(lambda: getattr(TimeSeries(name, t.copy(), x.copy()), what)(twin=(a, b), filterargs=fargs, rettime=True))
+                if pt.shape != px.shape or (len(pt) and not (np.all(pt >= a) and np.all(pt <= b))):
+                    bad.append(("the %s reported with a windowed trace lie inside the closed window, one time per value" % what + EACH + label,
+                                [name, a, b], [name, pt.tolist()[:5], px.tolist()[:5]], idx))
+                elif isinstance(ref, str) or np.asarray(ref[0]).shape != px.shape or \
+                        not np.allclose(np.asarray(ref[0], dtype=float), px, rtol=1e-12, atol=1e-12 * xscale(x)) or \
+                        not np.array_equal(np.asarray(ref[1], dtype=float), pt):
+                    bad.append(("the %s reported with a windowed trace are those of the windowed series alone" % what + EACH + label,
+                                [name, ref if isinstance(ref, str) else [np.asarray(ref[1]).tolist()[:5], np.asarray(ref[0]).tolist()[:5]]],
+                                [name, pt.tolist()[:5], px.tolist()[:5]], idx))
+    for name, (t, x) in data.items():
+        got = attempt(lambda: objs[name].get())
+        if isinstance(got, str) or not (np.array_equal(got[0], t) and np.array_equal(got[1], x)):
+            bad.append(("without options the stored arrays are returned" + AFTER, [name, head((t, x))], head(got), len(inp["requests"]) - 1))
+    return bad
+
 
 def run(chk):
     chk.extra["rule"] = RULE + " " + SMOOTH_RULE
@@ -1619,7 +1802,7 @@ def run(chk):
     lines, meta = [], []
     todo = []
     for c in corpus:
-        if "opts" in c or "start" in c or c.get("real"):
+        if "opts" in c or "start" in c or c.get("real") or c.get("container"):
             continue
         todo.append(([Fraction(v) for v in c["t"]], [Fraction(v) for v in c["x"]], {k: c[k] for k in CASE_KEYS if k in c}, "corpus"))
     for _ in range(M):
@@ -1790,6 +1973,28 @@ def run(chk):
                     type(e).__name__ + ": " + str(e)[:120], len(c["requests"]) - 1)]
         for oracle, exp, obs, idx in bad:
             chk.fail(oracle, dict(inp, requests=c["requests"][:idx + 1]), exp, obs)
+    # ---- requests naming several series (different spans) with one window: app.funcs.calculate_trace / calculate_gumbel_fit, TsDB.getda ----
+    C = 120 if chk.quick else 2500
+    conts = [c for c in corpus if c.get("container")] + [gen_container(rng) for _ in range(C)]
+    for c in conts:
+        chk.count("containers")
+        inp = {k: c[k] for k in ("container", "series", "requests")}
+        spans = sorted({(s["t"][0], s["t"][-1]) for s in c["series"]})
+        chk.dist("container: %d series, %s" % (len(c["series"]), "one span" if len(spans) == 1 else "different spans"))
+        for r in c["requests"]:
+            chk.dist("container request via %s" % r.get("via", "trace"))
+            chk.dist("container window: %s%s" % (r.get("window", "given"), ", filtered" if r.get("fargs") else ""))
+            cut = [s["name"] for s in c["series"] if s["name"] in r["names"] and (r["twin"][0] > s["t"][0] or r["twin"][1] < s["t"][-1])]
+            if len(spans) > 1 and len(r["names"]) > 1:
+                chk.nontriv("container %r %r" % (spans, {k: r[k] for k in ("via", "names", "twin")}))
+            chk.dist("container window crops %s of the named series" % ("none" if not cut else "all" if len(cut) == len(r["names"]) else "some"))
+        try:
+            bad = container_clauses(inp)
+        except Exception as e:
+            bad = [("the implementation raised where the harness did not expect it (a crash is a failing clause)", "no exception",
+                    type(e).__name__ + ": " + str(e)[:120], len(c["requests"]) - 1)]
+        for oracle, exp, obs, idx in bad:
+            chk.fail(oracle, dict(inp, requests=c["requests"][:idx + 1]), exp, obs)
     chk.sample(dict(t=[0, 1, 2, 3, 4], x=[0, 1, 4, 9, 16], opts="twin=(1,3) taper filter", model=[[1, 2, 3], [5, 11, 21]]))
     chk.sample(dict(t="0, 0.5, ... 20 (41 samples)", requests=[dict(twin=[2.0, 18.0], taperfrac=0.1, window_len=6, window="hanning")],
                     expected="33 time samples and 33 data samples; the same data as smoothing the tapered window asked from a second series"))
@@ -1811,6 +2016,10 @@ def replay(rp):
     if "start" in inp:
         for oracle, exp, obs in float_case(inp):
             print("FAILS:", oracle, "| expected", exp, "| observed", obs)
+            bad += 1
+    elif inp.get("container"):
+        for oracle, exp, obs, idx in container_clauses(inp):
+            print("FAILS (request %d: %r):" % (idx, inp["requests"][idx]), oracle, "| expected", exp, "| observed", obs)
             bad += 1
     elif inp.get("real"):
         for oracle, exp, obs, idx in real_clauses(inp):
